@@ -153,6 +153,10 @@ func failedOracle(r, rec *engine.Result, faults []simfs.Fault) []core.Violation 
 			}
 			fk = strings.Join(parts, "+")
 		}
+		if r.Panicked && !r.Injected {
+			// the operation aborted with a panic that pdfcpu raised by itself (after an injected error)
+			fk += "=>OWNPANIC"
+		}
 		sig := fmt.Sprintf("%s|%s|%s|%s|%s|%s", o.Family, r.Cfg.Op, r.Cfg.Rel, fk, class, sigTail)
 		rp, _ := json.Marshal(C01Replay{Cfg: r.Cfg, Faults: faults, Events: eventSummary(r.Events, 60)})
 		var fs []string
